@@ -68,6 +68,8 @@ def plan(prop):
     if prop in ('C05', 'C01'):
         for jp in (((1, 1),) if Q else ((1, 1), (2, 1), (1, 1, 1))):
             obs.append((core, lambda ctx, jp=jp: co.ob_group_state(ctx, jp)))
+        for jp in (((1, 1), (2, 1)) if Q else ((1, 1), (2, 1), (1, 2), (1, 1, 1), (2, 2))):
+            obs.append((core, lambda ctx, jp=jp: co.ob_shared_resource_state(ctx, jp)))
     if prop == 'C05':
         for k, closed in [(0, True), (2, True), (1, False)]:
             obs.append((core, lambda ctx, k=k, c=closed: co.ob_deep_copy(ctx, k, c)))
@@ -84,6 +86,12 @@ def plan(prop):
             obs.append((core, lambda ctx, k=k, n=n: co.ob_route_level_gates(ctx, k, n)))
         obs.append((core, lambda ctx: co.ob_route_level_gates(ctx, 2, 1, multi_in_tour=True)))
         obs.append((core, lambda ctx: co.ob_route_level_gates(ctx, 0, 1, n_places=2)))
+    if prop == 'C01':
+        for n in ((2,) if Q else (2, 3)):
+            obs.append((core, lambda ctx, n=n: co.ob_skills_gate(ctx, n)))
+    if prop in ('C01', 'C05'):
+        for n in ((1, 2) if Q else (0, 1, 2, 3)):
+            obs.append((core, lambda ctx, n=n: co.ob_compatibility_state(ctx, n)))
     if prop == 'C01':
         for k in ((0, 1, 2) if Q else (0, 1, 2, 3)):
             obs.append((core, lambda ctx, k=k: co.ob_tour_order_gate(ctx, k)))
